@@ -238,15 +238,24 @@ example : lineTokens 2 [['h']] = [⟨"NAME", "h", 2⟩] := by decide +kernel
 
 /-! ## 3. A quoted string may contain anything but a double quote -/
 
-/-- Content without `"` and without `\`: the text `"cs"` followed by ANY further text `rest`
-(white space, letters, another quote, …) gives the ONE token `LITERAL_STRING cs` and then the
-tokens of `rest`.  Nothing inside `cs` — punctuation, keywords, `#`, digits, white space — is
-seen by the other scanners. -/
+/-- Content without `"` that does not END in a backslash (backslashes elsewhere are fine): the
+text `"cs"` followed by ANY further text `rest` (white space, letters, another quote, …) gives
+the ONE token `LITERAL_STRING cs` and then the tokens of `rest`.  Nothing inside `cs` —
+punctuation, keywords, `#`, digits, white space — is seen by the other scanners. -/
+theorem C16_string_free_general (n f : Nat) (cs rest : List Char) (hq : '"' ∉ cs)
+    (hl : cs.getLast? ≠ some '\\') :
+    lineTokens n (splitLine (f + 1) ('"' :: (cs ++ '"' :: rest)))
+      = ⟨"LITERAL_STRING", String.ofList cs, n⟩ :: lineTokens n (splitLine f rest) := by
+  rw [splitLine_string f cs rest
+      (scanStringBody_noesc '"' cs rest hq (getLast?_quote_cons cs hl)),
+    lineTokens_string n cs hq]
+
+/-- the same for content without `"` and without `\` at all (the form asked for) -/
 theorem C16_string_free (n f : Nat) (cs rest : List Char) (hq : '"' ∉ cs) (hb : '\\' ∉ cs) :
     lineTokens n (splitLine (f + 1) ('"' :: (cs ++ '"' :: rest)))
       = ⟨"LITERAL_STRING", String.ofList cs, n⟩ :: lineTokens n (splitLine f rest) := by
-  rw [splitLine_string f cs rest (scanStringBody_simple '"' cs rest hq hb (by decide)),
-    lineTokens_string n cs hq]
+  refine C16_string_free_general n f cs rest hq (fun h => hb ?_)
+  exact List.mem_of_getLast? h
 
 /-- … in particular the line consisting of the literal alone is that single token -/
 theorem C16_string_free_alone (n f : Nat) (cs : List Char) (hq : '"' ∉ cs) (hb : '\\' ∉ cs) :
@@ -407,10 +416,10 @@ def Word.text : Word → List Char
   | .plain a => a
   | .str cs => '"' :: (cs ++ ['"'])
 
-/-- plain text has no `"`; a string content has neither `"` nor `\` -/
+/-- plain text has no `"`; a string content has no `"` and does not end in `\` -/
 def Word.ok : Word → Prop
   | .plain a => '"' ∉ a
-  | .str cs => '"' ∉ cs ∧ '\\' ∉ cs
+  | .str cs => '"' ∉ cs ∧ cs.getLast? ≠ some '\\'
 
 /-- the matches a piece gives when it stands alone -/
 def Word.matches : Word → List (List Char)
@@ -455,7 +464,7 @@ theorem C16_layout_invariant (ps : List (Word × List Char)) (b : List Char) (f 
       rw [e] at hf ⊢
       simp only [List.length_cons, List.length_append] at hf
       obtain ⟨f', rfl⟩ : ∃ f', f = f' + 1 := ⟨f - 1, by omega⟩
-      rw [splitLine_string f' cs _ (scanStringBody_simple '"' cs _ hok.1 hok.2 (by decide))]
+      rw [splitLine_string f' cs _ (scanStringBody_noesc '"' cs _ hok.1 (getLast?_quote_cons cs hok.2))]
       have : f' = (f' - sep.length) + sep.length := by omega
       rw [this, splitLine_ws_list _ _ _ hws, ih _ hrest (by simp only [List.length_append]; omega)]
       rfl
